@@ -64,12 +64,20 @@ func exec(op string) (res string) {
 			return "bad-op"
 		}
 		return gocql.VerifHash("random", k)
+	case "randomk":
+		return gocql.VerifHash("random", hx(1))
 	case "ordlt":
 		return fmt.Sprint(gocql.VerifHashLess("ordered", hx(1), hx(2)))
 	case "parsem", "parsemx":
 		return gocql.VerifParseToken("murmur3", sx(1))
-	case "parser":
+	case "parser", "parserx":
 		return gocql.VerifParseToken("random", sx(1))
+	case "part", "partx":
+		n, err := gocql.VerifC09PartitionerOf(sx(1))
+		if err != nil {
+			return "err"
+		}
+		return n
 	case "lessm", "lessmx":
 		return fmt.Sprint(gocql.VerifTokenLess("murmur3", sx(1), sx(2)))
 	case "hlessm":
@@ -90,6 +98,8 @@ func exec(op string) (res string) {
 		c := parseRkn(w)
 		c.pl = pl
 		return c.run()
+	case "rkc", "rkcx":
+		return parseRkc(w).run()
 	case "ringsort":
 		return execRingsort(w)
 	case "lessr":
@@ -292,6 +302,91 @@ func natString(r *vh.Rng) string {
 		s = "0"
 	}
 	return s
+}
+
+// RandomPartitioner token strings: canonical decimal integers - Cassandra's range 0..2^127 and the minimum token -1,
+// the boundaries of the machine-word fast paths (2^63, 2^64, 10^19), beyond the range, negative
+var bigBoundary = []string{"0", "-1", "1", "170141183460469231731687303715884105728", "170141183460469231731687303715884105727",
+	"9223372036854775807", "9223372036854775808", "18446744073709551615", "18446744073709551616", "9999999999999999999",
+	"10000000000000000000", "999999999999999999", "1000000000000000000", "340282366920938463463374607431768211455",
+	"340282366920938463463374607431768211456", "-170141183460469231731687303715884105728", "-9223372036854775808", "-9223372036854775809"}
+
+func bigString(r *vh.Rng) string {
+	switch r.Intn(6) {
+	case 0:
+		return bigBoundary[r.Intn(len(bigBoundary))]
+	case 1:
+		if s := natString(r); s != "0" {
+			return "-" + s
+		}
+		return "0"
+	case 2: // 18..20 digits: around the int64 / uint64 boundaries
+		n := 18 + r.Intn(3)
+		var sb strings.Builder
+		sb.WriteByte(byte('1' + r.Intn(9)))
+		for i := 1; i < n; i++ {
+			sb.WriteByte(byte('0' + r.Intn(10)))
+		}
+		return sb.String()
+	}
+	return natString(r)
+}
+
+// sign + digits, not canonical (big.Int.SetString accepts them; Cassandra never prints them)
+func bigStringX(r *vh.Rng) string {
+	s := natString(r)
+	switch r.Intn(4) {
+	case 0:
+		return "+" + s
+	case 1:
+		return "-0"
+	case 2:
+		return strings.Repeat("0", 1+r.Intn(3)) + s
+	}
+	return "-" + strings.Repeat("0", 1+r.Intn(2)) + s
+}
+
+var partBases = []string{"Murmur3Partitioner", "RandomPartitioner", "ByteOrderedPartitioner", "OrderPreservingPartitioner"}
+
+// partName: a partitioner class name as a cluster reports it (any package prefix) -> op part; a damaged one -> partx
+func partName(r *vh.Rng) (string, bool) {
+	base := partBases[r.Intn(len(partBases))]
+	pre := "org.apache.cassandra.dht."
+	switch r.Intn(5) {
+	case 0:
+		pre = ""
+	case 1:
+		pre = string("abcXYZ.$_0"[r.Intn(10)])
+	case 2:
+		b := make([]byte, 1+r.Intn(30))
+		for i := range b {
+			b[i] = "abcdefghijklmnopqrstuvwxyzMORB.3"[r.Intn(32)]
+		}
+		pre = string(b)
+	case 3:
+		pre = "com.example." + partBases[r.Intn(len(partBases))] + "."
+	}
+	if r.Intn(3) != 0 {
+		return pre + base, true
+	}
+	n := pre + base
+	switch r.Intn(7) {
+	case 0:
+		n = strings.ToLower(n)
+	case 1:
+		n = n[:len(n)-1]
+	case 2:
+		n = n + []string{" ", "2", "\x00", ".", "s"}[r.Intn(5)]
+	case 3:
+		n = []string{"", "Partitioner", "OrderedPartitioner", "3Partitioner", "murmur3Partitioner", "Murmur3partitioner"}[r.Intn(6)]
+	case 4:
+		n = base + pre
+	case 5:
+		n = pre + base + partBases[r.Intn(len(partBases))][1:]
+	default:
+		n = pre + strings.Replace(base, "Partitioner", "Partitoner", 1)
+	}
+	return n, false
 }
 
 func main() {
@@ -550,7 +645,7 @@ func main() {
 		}
 	}
 	for i := 0; i < 2000*mult; i++ {
-		s, t := natString(r), natString(r)
+		s, t := bigString(r), bigString(r)
 		if r.Intn(4) == 0 {
 			t = s
 		}
@@ -558,6 +653,19 @@ func main() {
 		out.Case(op, exec(op), "parser", true)
 		op = "lessr " + vh.Hex([]byte(s)) + " " + vh.Hex([]byte(t))
 		out.Case(op, exec(op), "lessr", true)
+		if i%8 == 0 {
+			op = "parserx " + vh.Hex([]byte(bigStringX(r)))
+			out.Case(op, exec(op), "parserx", true)
+		}
+		if i%4 == 0 {
+			n, ok := partName(r)
+			name := "part"
+			if !ok {
+				name = "partx"
+			}
+			op = name + " " + vh.Hex([]byte(n))
+			out.Case(op, exec(op), name, true)
+		}
 	}
 	for i := 0; i < 2000*mult; i++ {
 		n := 1 + r.Intn(4)
@@ -621,6 +729,31 @@ func main() {
 			op += " " + genPl(r, -1)
 			out.Case(op, exec(op), "rkn@/"+name, true)
 		}
+	}
+	// the Random partitioner on the KEY (the model computes MD5 itself): every length 0..130 (the padding boundaries 55 / 56,
+	// 63 / 64 / 65, 119 / 120 included), long keys, placed keys
+	for rep := 0; rep < 3*mult; rep++ {
+		for n := 0; n <= 130; n++ {
+			op := "randomk " + vh.Hex(genKey(r, n))
+			out.Case(op, exec(op), fmt.Sprintf("randomk/chunks%d", (n+8)/64+1), n > 0)
+		}
+	}
+	for i := 0; i < 150*mult; i++ {
+		op := "randomk " + vh.Hex(genKey(r, 131+r.Intn(1500)))
+		if i%3 == 0 {
+			op += " " + genPl(r, -1)
+		}
+		out.Case(op, exec(op), "randomk/long", true)
+	}
+	// the routing-key info cache over histories of one session (rkc.go)
+	for i := 0; i < 1500*mult; i++ {
+		c, safe, cls := genRkc(r, g)
+		name := "rkc"
+		if !safe {
+			name = "rkcx"
+		}
+		op := c.op(name)
+		out.Case(op, exec(op), cls, true)
 	}
 	out.Close(nil)
 }
